@@ -78,6 +78,19 @@ def build(rng, tier):
             hist = engcheck.std_history(inst, pid, inp)
             if pid == "ltopp": hist[0] += f" par {g.choice([1, 2, 4, 8])}"
             cases.append(engcheck.Case(pid, inst, hist, {"inp": inp, "kind": "lattice-column-bound-to-top" + ("-par" if pid == "ltopp" else "")}))
+    # forced shape "many workers create the same NEW keys at the same moment" (ascent_par!): `best(k, x) <-- src(x), for k in 0..3000` with 64 source rows - every worker walks
+    # the same sequence of brand-new lattice keys in lockstep; whatever decides "this key has no row yet, I push one" must be atomic with publishing the row in the key index
+    # (one row per key, holding the maximum).  Too large for the executable model: judged by the oracle (least fixed point + one row per key)
+    lr = {"rels": [{"arity": 1}, {"arity": 2, "lat": "max"}, {"arity": 2}],
+          "rules": [{"heads": [(1, [("var", 1), ("var", 0)])], "body": [("cl", 0, [("v", 0)], []), ("for", 1, ("range", 0, 3000))]},
+                    {"heads": [(2, [("var", 0), ("var", 1)])], "body": [("cl", 1, [("v", 0), ("v", 1)], []), ("if", ("lt", ("var", 0), 40))]}]}
+    progs["lrace"] = lr
+    mods.append(("lrace", eng.rs_module("lrace", lr, macro="ascent_par")))
+    for j, t in enumerate([8, 16, 4, 16] if tier == "quick" else [2, 4, 8, 16] * 4):
+        inp = {0: [(x,) for x in range(64)], 1: [], 2: []}
+        inst = f"lrace_{j}"
+        hist = engcheck.std_history(inst, "lrace", inp); hist[0] += f" par {t}"
+        cases.append(engcheck.Case("lrace", inst, hist, {"inp": inp, "kind": "lattice-new-key-race-par", "no_model": True}))
     return progs, mods, cases
 
 
@@ -97,8 +110,13 @@ def oracle(c, p, out):
     return None
 
 
+def canon(c, out):
+    if c.meta.get("no_model"): return ["<too large for the Lean model: judged by the oracle>" for _ in out]
+    return out
+
+
 def check(tier, replay=None):
-    return engcheck.run_property("C03", tier, modules=["AscentVerif.Props.C03", "AscentVerif.Props.C03ND", "AscentVerif.Props.C03Phys"], theorems=THEOREMS, trusted=TRUSTED, group="c03",
+    return engcheck.run_property("C03", tier, canon=canon, modules=["AscentVerif.Props.C03", "AscentVerif.Props.C03ND", "AscentVerif.Props.C03Phys"], theorems=THEOREMS, trusted=TRUSTED, group="c03",
                                  build=build, oracle=oracle, what="compiled lattice programs",
                                  rule="generated programs with 1-2 lattice relations (max / Dual min / Set union / Option), seeded from relations, recursive through "
                                       "the lattice (shortest-path shape, saturating increments), lattice values flowing only into lattice columns; inputs with one "
